@@ -45,7 +45,7 @@ class DDS(object):
 
 def enc_opts(o):
     parts = []
-    for k in ("m", "x", "b", "r", "q", "simple", "type"):
+    for k in ("m", "x", "b", "r", "q", "simple", "type", "agg", "acc"):
         if k in o:
             v = o[k]
             parts.append("%s=%s" % (k, xvec(v) if k in ("r", "q") else ("1" if v is True else v)))
@@ -59,7 +59,7 @@ def dec_opts(s):
             k, v = kv.split("=", 1)
             if k in ("r", "q"):
                 o[k] = from_xvec(v)
-            elif k == "simple":
+            elif k in ("simple", "acc"):
                 o[k] = True
             else:
                 o[k] = v
@@ -132,6 +132,7 @@ def make_output(name, o, data):
     import verif.metric
     import verif.field
     import verif.axis
+    import verif.aggregator
     if name in SPECIAL:
         pl = getattr(verif.output, SPECIAL[name])()
     elif name == "autocorr":
@@ -143,7 +144,17 @@ def make_output(name, o, data):
     elif name == "sort":
         pl = verif.output.Sort(verif.field.get(o["m"]))
     else:       # standard, rank, impact, map
-        pl = verif.output.Standard(verif.metric.get(o["m"]))
+        met = verif.metric.get(o["m"])
+        if met is None:
+            met = verif.metric.FromField(verif.field.Other(o["m"]))
+        if "agg" in o:
+            met.aggregator = verif.aggregator.get(o["agg"])       # as verif.driver.run does
+        pl = verif.output.Standard(met)
+    if "agg" in o:
+        import verif.aggregator
+        pl.aggregator = verif.aggregator.get(o["agg"])
+    if o.get("acc") and pl.supports_acc:
+        pl.show_acc = True
     if o.get("simple"):
         pl.simple = True
     if "b" in o:
@@ -380,6 +391,10 @@ def render_cli(name, opts, ds):
             argv += ["-x", opts["x"]]
         if opts.get("simple"):
             argv += ["-simple"]
+        if "agg" in opts:
+            argv += ["-agg", opts["agg"]]
+        if opts.get("acc"):
+            argv += ["-acc"]
         argv += ["-f", os.path.join(d, "out.png")]
         del _calls[:]
         _last.clear()
@@ -425,6 +440,8 @@ def select(name, recs, names):
             keep = True
         elif name == "invreliability" and core and r["kind"] == "line" and (r["label"] == "" or r["label"].startswith("_child")):
             keep = True                   # curves of the 2nd, 3rd ... level: label "" (matplotlib stores "_child<n>")
+        elif name in ("standard", "obsfcst") and core and r["kind"] == "bar":
+            keep = True                                      # -x no: the bar graph (one bar per input)
         elif name in ("autocorr", "autocov") and core and r["kind"] == "line":
             keep = True
         elif name in ("obsfcst", "meteo") and r["kind"] == "poly" and r["src"] == "fill":
